@@ -31,3 +31,10 @@ Theorem C01_forward_composition : forall md5 rx cfg fs st h c now rnd s i b,
   In (OEnq s i b) (snd (radsrv md5 rx cfg fs st h c now rnd)) -> forwarded md5 rx cfg fs st h c rnd s i b.
 Proof. exact forward_composition. Qed.
 Print Assumptions C01_forward_composition.
+
+(* "exactly once": one invocation of the request handler places at most one packet in a server table (and a repeat
+   of the same request inside the duplicate interval places none: C10_repeat_not_forwarded) *)
+Theorem C01_at_most_once : forall md5 rx cfg fs st h c now rnd,
+  (length (filter is_enq (snd (radsrv md5 rx cfg fs st h c now rnd))) <= 1)%nat.
+Proof. exact radsrv_at_most_one. Qed.
+Print Assumptions C01_at_most_once.
